@@ -320,11 +320,16 @@ impl Collector {
             Some((coarse, detail, human)) => {
                 lc.inc(format!("{}:{}:fail", m.sweep, kname));
                 lc.inc(format!("outcome:{}:{}", if kind < GATED_KINDS { "gated" } else { "plain-display" }, coarse));
-                let mut sig = format!("C06|{}|{}|{}|{}|{}", m.focus.ty, m.focus.field, m.focus.oct, kname, coarse);
-                let with_detail = m.sig_detail || coarse.ends_with("panic");
-                if with_detail && !detail.is_empty() {
-                    sig.push('|');
-                    sig.push_str(&detail);
+                // (type, field-or-owner, octet class, display kind) is ONE
+                // class; the value sweep has no field/octet class and uses
+                // the outcome detail instead; panics are always set apart.
+                let mut sig = if m.sig_detail {
+                    format!("C06|{}|{}|{}|{}", m.focus.ty, m.focus.field, if detail.is_empty() { coarse.to_string() } else { format!("{coarse}:{detail}") }, kname)
+                } else {
+                    format!("C06|{}|{}|{}|{}", m.focus.ty, m.focus.field, m.focus.oct, kname)
+                };
+                if coarse.ends_with("panic") && !m.sig_detail {
+                    sig.push_str(&format!("|{coarse}:{detail}"));
                 }
                 let text = ev.text.clone().unwrap_or_default();
                 if kind >= GATED_KINDS {
@@ -494,7 +499,7 @@ fn payloads(max: usize, min1: bool, thorough: bool) -> Vec<Payload> {
         ("hash", b"\\# 0"),
     ];
     for (oct, b) in named {
-        p(oct, "named", b.to_vec(), true);
+        p(oct, "named", b.to_vec(), false);
     }
     if thorough {
         // every string of length 2 and 3 over the hostile alphabet
@@ -510,33 +515,43 @@ fn payloads(max: usize, min1: bool, thorough: bool) -> Vec<Payload> {
     v
 }
 
-/// Owner menu: (owner, focus, description).
-fn owner_menu(thorough: bool) -> Vec<(Nm, Focus, String)> {
-    let mut v: Vec<(Nm, Focus, String)> = Vec::new();
-    let specs = rgen::name_specs();
-    for s in &specs {
-        v.push((s.name(), Focus::new("owner", s.tag, "-"), format!("owner {}", s.tag)));
+/// One owner of the owner menu.
+struct OwnerCase {
+    name: Nm,
+    focus: Focus,
+    desc: String,
+    /// the probing label, if the owner is a hostile-octet probe
+    payload: Option<Payload>,
+    /// member of the reduced menu crossed with all values/classes/TTLs
+    reduced: bool,
+}
+
+/// Owner menu.
+fn owner_menu(thorough: bool) -> Vec<OwnerCase> {
+    let mut v: Vec<OwnerCase> = Vec::new();
+    let mut base = |name: Nm, field: &str, oct: &str, desc: String| {
+        v.push(OwnerCase { name, focus: Focus::new("owner", field, oct), desc, payload: None, reduced: true })
+    };
+    for s in &rgen::name_specs() {
+        base(s.name(), s.tag, "-", format!("owner {}", s.tag));
     }
-    v.push((name_of(&[b"*", b"a"]), Focus::new("owner", "wildcard", "star"), "owner *.a.".into()));
-    v.push((name_of(&[b"*"]), Focus::new("owner", "wildcard", "star"), "owner *.".into()));
-    v.push((name_of(&[b"a", b"B"]), Focus::new("owner", "mixed-case", "-"), "owner a.B.".into()));
-    v.push((name_of(&[&[b'X'; 63]]), Focus::new("owner", "label63", "-"), "owner X{63}.".into()));
-    // 255-octet names made of hostile octets only
+    base(name_of(&[b"*", b"a"]), "wildcard", "star", "owner *.a.".into());
+    base(name_of(&[b"*"]), "wildcard", "star", "owner *.".into());
+    base(name_of(&[b"a", b"B"]), "mixed-case", "-", "owner a.B.".into());
+    base(name_of(&[&[b'X'; 63]]), "label63", "-", "owner X{63}.".into());
+    // 255-octet names made of one hostile octet only
     for &b in &[0xFFu8, b'"', b'.', b'\\'] {
-        v.push((
-            name_of(&[&[b; 63], &[b; 63], &[b; 63], &[b; 61]]),
-            Focus::new("owner", "label", oct_class(b)),
-            format!("255-octet owner of octet {b:#04x} only"),
-        ));
+        base(name_of(&[&[b; 63], &[b; 63], &[b; 63], &[b; 61]]), "label", oct_class(b), format!("255-octet owner of octet {b:#04x} only"));
     }
     for p in payloads(63, true, thorough) {
         let f = Focus::new("owner", "label", &p.oct);
         let d = format!("owner label {} ({}, {})", hex(&p.bytes), p.oct, p.pos);
+        let reduced = p.single && p.pos == "alone" && HOSTILE.contains(&p.bytes[0]);
         // as first label below z., as the only label, as the last label
-        v.push((name_of(&[&p.bytes, b"z"]), f.clone(), format!("{d} + .z.")));
+        v.push(OwnerCase { name: name_of(&[&p.bytes, b"z"]), focus: f.clone(), desc: format!("{d} + .z."), payload: Some(p.clone()), reduced });
         if p.single {
-            v.push((name_of(&[&p.bytes]), f.clone(), format!("{d} alone")));
-            v.push((name_of(&[b"z", &p.bytes]), f.clone(), format!("z. + {d}")));
+            v.push(OwnerCase { name: name_of(&[&p.bytes]), focus: f.clone(), desc: format!("{d} alone"), payload: Some(p.clone()), reduced: false });
+            v.push(OwnerCase { name: name_of(&[b"z", &p.bytes]), focus: f.clone(), desc: format!("z. + {d}"), payload: Some(p.clone()), reduced: false });
         }
     }
     v
@@ -750,7 +765,28 @@ fn sweep_values(col: &Collector, tier: GTier) {
     });
 }
 
-/// `envelope`: compact values x owners x classes x TTLs x kinds x origin.
+/// Attribution of a combination payload: the class of the first octet that
+/// already fails alone for this (type, field, kind); else a combination
+/// class of its own (a new interaction).
+fn attribute(col: &Collector, ty: &str, field: &str, p: &Payload, kind: usize) -> String {
+    if p.single {
+        return p.oct.clone();
+    }
+    let fs = col.failing_singles.lock().unwrap();
+    let hit = p.bytes.iter().map(|b| oct_class(*b)).find(|c| fs.contains(&(ty.to_string(), field.to_string(), c.to_string(), kind)));
+    match hit {
+        Some(c) => c.to_string(),
+        None => {
+            let mut cl: Vec<&str> = p.bytes.iter().map(|b| oct_class(*b)).collect();
+            cl.sort();
+            cl.dedup();
+            format!("combo:{}", cl.join("+"))
+        }
+    }
+}
+
+/// `envelope`: (a) every owner x probe values x kinds x origin;
+/// (b) compact values x reduced owner menu x classes x TTLs x kinds x origin.
 fn sweep_envelope(col: &Collector, thorough: bool) {
     let (vals, _) = rgen::values_ex(GTier::Compact);
     let vals: Vec<(rgen::Value, ZRd)> = vals
@@ -785,44 +821,84 @@ fn sweep_envelope(col: &Collector, thorough: bool) {
         lc.add("envelope:ttls-in-product".into(), ttls.len() as u64);
         col.merge(lc);
     }
+    // baselines: every compact value with the plain envelope
+    let baseline: Vec<[bool; 4]> = vals
+        .par_iter()
+        .map(|(v, z)| {
+            let mut lc = Local::default();
+            let fv = Focus::new(v.mnemonic, "value", "-");
+            let note = format!("compact value {}", v.desc);
+            let m = CaseMeta { sweep: "envelope-baseline", focus: &fv, sig_detail: true, note: &note };
+            let rec = Record::new(base_owner.clone(), Class::IN, Ttl::from_secs(3600), z.clone());
+            let mut ok = [true; 4];
+            for k in KIND_RANGE {
+                ok[k] = col.case(&mut lc, &m, &rec, &v.wire, k, false);
+            }
+            col.merge(lc);
+            ok
+        })
+        .collect();
     let owners = owner_menu(thorough);
+    // probe values for the owner sweep: the first value of a few types whose
+    // baseline passes in all gated kinds (address, name, quoted string,
+    // generic data)
+    let probes: Vec<usize> = ["A", "NS", "TXT", "TYPE65280"]
+        .iter()
+        .filter_map(|t| (0..vals.len()).find(|&i| vals[i].0.mnemonic == *t && baseline[i][..GATED_KINDS].iter().all(|b| *b)))
+        .collect();
     {
         let mut lc = Local::default();
         lc.add("envelope:owners".into(), owners.len() as u64);
-        lc.add("envelope:values".into(), vals.len() as u64);
+        lc.add("envelope:owners-reduced-menu".into(), owners.iter().filter(|o| o.reduced).count() as u64);
+        lc.add("envelope:compact-values".into(), vals.len() as u64);
+        lc.add("envelope:probe-values".into(), probes.len() as u64);
         col.merge(lc);
     }
-    // thorough: hostile combination owners only with one value per kind of
-    // RDATA start (a name, a quoted string, a number)
-    vals.par_iter().enumerate().for_each(|(vi, (v, z))| {
-        let mut lc = Local::default();
-        // baseline per kind
-        let fv = Focus::new(v.mnemonic, "value", "-");
-        let note = format!("compact value {}", v.desc);
-        let m = CaseMeta { sweep: "envelope-baseline", focus: &fv, sig_detail: true, note: &note };
-        let rec = Record::new(base_owner.clone(), Class::IN, Ttl::from_secs(3600), z.clone());
-        let mut ok = [true; 4];
-        for k in KIND_RANGE {
-            ok[k] = col.case(&mut lc, &m, &rec, &v.wire, k, false);
-        }
-        for (owner, focus, odesc) in &owners {
-            // combination owners: only with the first three values
-            if focus.oct == "combo" && vi % 16 != 0 {
-                continue;
+    // (a) every owner; single-octet probes first so that combinations can be
+    // attributed
+    for phase_single in [true, false] {
+        owners.par_iter().filter(|o| o.payload.as_ref().map(|p| p.single).unwrap_or(true) == phase_single).for_each(|o| {
+            let mut lc = Local::default();
+            for &vi in &probes {
+                let (v, z) = &vals[vi];
+                let rec = Record::new(o.name.clone(), Class::IN, Ttl::from_secs(3600), z.clone());
+                let note = format!("{}, data {}", o.desc, v.desc);
+                for k in KIND_RANGE {
+                    let focus = match &o.payload {
+                        Some(p) => Focus::new("owner", "label", &attribute(col, "owner", "label", p, k)),
+                        None => o.focus.clone(),
+                    };
+                    let m = CaseMeta { sweep: "envelope-owners", focus: &focus, sig_detail: false, note: &note };
+                    for origin in [false, true] {
+                        let ok = col.case(&mut lc, &m, &rec, &v.wire, k, origin);
+                        if !ok && phase_single {
+                            col.failing_singles.lock().unwrap().insert(("owner".into(), "label".into(), focus.oct.clone(), k));
+                        }
+                    }
+                }
             }
-            for &class in &classes {
-                for &ttl in &ttls {
-                    let rec = Record::new(owner.clone(), class, Ttl::from_secs(ttl), z.clone());
-                    let note = format!("{odesc}, class {class}, TTL {ttl}, data {}", v.desc);
-                    let m = CaseMeta { sweep: "envelope", focus, sig_detail: false, note: &note };
-                    for k in KIND_RANGE {
-                        if !ok[k] {
-                            lc.inc("envelope:skipped-baseline-fails".into());
-                            continue;
-                        }
-                        for origin in [false, true] {
-                            col.case(&mut lc, &m, &rec, &v.wire, k, origin);
-                        }
+            col.merge(lc);
+        });
+    }
+    // (b) the full product over the reduced owner menu
+    let reduced: Vec<&OwnerCase> = owners.iter().filter(|o| o.reduced).collect();
+    let jobs: Vec<(usize, usize)> = (0..vals.len()).flat_map(|vi| (0..reduced.len()).map(move |oi| (vi, oi))).collect();
+    jobs.par_iter().for_each(|&(vi, oi)| {
+        let mut lc = Local::default();
+        let (v, z) = &vals[vi];
+        let o = reduced[oi];
+        for &class in &classes {
+            for &ttl in &ttls {
+                let rec = Record::new(o.name.clone(), class, Ttl::from_secs(ttl), z.clone());
+                let note = format!("{}, class {class}, TTL {ttl}, data {}", o.desc, v.desc);
+                let m = CaseMeta { sweep: "envelope", focus: &o.focus, sig_detail: false, note: &note };
+                for k in KIND_RANGE {
+                    if !baseline[vi][k] {
+                        lc.add("envelope:skipped-baseline-fails".into(), 2);
+                        continue;
+                    }
+                    for origin in [false, true] {
+                        col.case(&mut lc, &m, &rec, &v.wire, k, origin);
                     }
                 }
             }
@@ -868,22 +944,7 @@ fn sweep_fields(col: &Collector, thorough: bool) {
                     lc.inc(format!("fields:{}.{}:values", d.ty, d.field));
                     let rec = Record::new(owner.clone(), Class::IN, Ttl::from_secs(3600), z);
                     for k in KIND_RANGE {
-                        // attribution of combinations: to the first octet
-                        // whose class already fails alone for this field/kind
-                        let mut oct = p.oct.clone();
-                        if !p.single {
-                            let fs = col.failing_singles.lock().unwrap();
-                            let hit = p.bytes.iter().map(|b| oct_class(*b)).find(|c| fs.contains(&(d.ty.to_string(), d.field.to_string(), c.to_string(), k)));
-                            oct = match hit {
-                                Some(c) => c.to_string(),
-                                None => {
-                                    let mut cl: Vec<&str> = p.bytes.iter().map(|b| oct_class(*b)).collect();
-                                    cl.sort();
-                                    cl.dedup();
-                                    format!("combo:{}", cl.join("+"))
-                                }
-                            };
-                        }
+                        let oct = attribute(col, d.ty, d.field, &p, k);
                         let focus = Focus::new(d.ty, d.field, &oct);
                         let note = format!("{} {} = {} ({}, {}) {}", d.ty, d.field, hex(&p.bytes), p.oct, p.pos, vdesc);
                         let m = CaseMeta { sweep: "fields", focus: &focus, sig_detail: false, note: &note };
@@ -940,6 +1001,107 @@ fn sweep_binary(col: &Collector, thorough: bool) {
         }
         col.merge(lc);
     });
+}
+
+/// `codes`: every record type number through the RFC 3597 generic form,
+/// every class number, every SVCB parameter key number, and TTL digit
+/// boundaries.
+fn sweep_codes(col: &Collector, thorough: bool) {
+    use domain::base::rdata::UnknownRecordData;
+    let owner = name_of(&[b"a"]);
+    // record types that are not data types (RFC 6895 section 3.1: Q and Meta
+    // types) cannot appear in a zone file: not gated, only counted
+    let not_zone_type = |t: u16| t == 0 || t == 41 || (128..=255).contains(&t);
+    let chunks: Vec<u32> = (0..256).collect();
+    chunks.par_iter().for_each(|&c| {
+        let mut lc = Local::default();
+        for t in (c * 256)..((c + 1) * 256) {
+            let t = t as u16;
+            if not_zone_type(t) {
+                lc.inc("codes:rtype:skipped-q-or-meta-type".into());
+                continue;
+            }
+            let data = vec![0xab, t as u8];
+            let z = match UnknownRecordData::from_octets(Rtype::from_int(t), data.clone()) {
+                Ok(u) => ZRd::Unknown(u),
+                Err(_) => continue,
+            };
+            let rec = Record::new(owner.clone(), Class::IN, Ttl::from_secs(3600), z);
+            let focus = Focus::new("rtype", "generic-form", &Rtype::from_int(t).to_string());
+            let note = format!("type {t} with RFC 3597 generic data");
+            let m = CaseMeta { sweep: "codes-rtype", focus: &focus, sig_detail: false, note: &note };
+            for k in KIND_RANGE {
+                col.case(&mut lc, &m, &rec, &data, k, false);
+            }
+        }
+        // classes (QCLASS NONE 254 and ANY 255 are not zone-file classes)
+        for cl in (c * 256)..((c + 1) * 256) {
+            let cl = cl as u16;
+            if cl == 254 || cl == 255 {
+                lc.inc("codes:class:skipped-qclass".into());
+                continue;
+            }
+            let wire = vec![192, 0, 2, 1];
+            let z = value_from_wire(1, &wire).expect("A");
+            let rec = Record::new(owner.clone(), Class::from_int(cl), Ttl::from_secs(3600), z);
+            let focus = Focus::new("class", "number", &Class::from_int(cl).to_string());
+            let note = format!("class {cl}");
+            let m = CaseMeta { sweep: "codes-class", focus: &focus, sig_detail: false, note: &note };
+            for k in KIND_RANGE {
+                col.case(&mut lc, &m, &rec, &wire, k, false);
+            }
+        }
+        // SVCB parameter keys without a defined meaning
+        for key in (c * 256)..((c + 1) * 256) {
+            let key = key as u16;
+            if key < 10 || (!thorough && (1100..65000).contains(&key) && key % 1111 != 0) {
+                continue;
+            }
+            let wire = cat(&[&[0, 1, 0], &svc_param(key, b"ab")]);
+            let z = match value_from_wire(64, &wire) {
+                Ok(z) => z,
+                Err(e) => {
+                    lc.inc(format!("codes:svcb-key:not-a-library-value({})", blank_digits(&e)));
+                    continue;
+                }
+            };
+            let rec = Record::new(owner.clone(), Class::IN, Ttl::from_secs(3600), z);
+            let ks = key.to_string();
+            let oct = if ks.contains('9') { "number-with-digit-9" } else { "number" };
+            let focus = Focus::new("SVCB", "param-key", oct);
+            let note = format!("SVCB with parameter key {key}");
+            let m = CaseMeta { sweep: "codes-svcb-key", focus: &focus, sig_detail: false, note: &note };
+            for k in KIND_RANGE {
+                col.case(&mut lc, &m, &rec, &wire, k, false);
+            }
+        }
+        col.merge(lc);
+    });
+    // TTL digit boundaries
+    let mut lc = Local::default();
+    let mut ttls: Vec<u32> = vec![0, 0x7FFF_FFFF];
+    let mut p = 1u64;
+    while p <= 0x7FFF_FFFF {
+        ttls.extend([(p - 1) as u32, p as u32]);
+        p *= 10;
+    }
+    for b in 0..31 {
+        ttls.extend([(1u32 << b) - 1, 1u32 << b]);
+    }
+    ttls.sort();
+    ttls.dedup();
+    let wire = vec![192, 0, 2, 1];
+    for t in ttls {
+        let z = value_from_wire(1, &wire).expect("A");
+        let rec = Record::new(owner.clone(), Class::IN, Ttl::from_secs(t), z);
+        let focus = Focus::new("ttl", "number", "-");
+        let note = format!("TTL {t}");
+        let m = CaseMeta { sweep: "codes-ttl", focus: &focus, sig_detail: false, note: &note };
+        for k in KIND_RANGE {
+            col.case(&mut lc, &m, &rec, &wire, k, false);
+        }
+    }
+    col.merge(lc);
 }
 
 // ===================================================================
@@ -1009,6 +1171,7 @@ fn main() {
     sweep_fields(&col, thorough);
     let t_fields = t0.elapsed().as_secs_f64();
     sweep_binary(&col, thorough);
+    sweep_codes(&col, thorough);
     let t_binary = t0.elapsed().as_secs_f64();
     sweep_envelope(&col, thorough);
     let t_env = t0.elapsed().as_secs_f64();
@@ -1024,7 +1187,7 @@ fn main() {
             ctx.violation(sig, &fc.what, J::Null);
         }
         let parts: Vec<&str> = sig.split('|').collect();
-        *by_cause.entry(format!("{}|{}", parts.get(3).unwrap_or(&""), parts.get(5).unwrap_or(&""))).or_insert(0) += 1;
+        *by_cause.entry(parts.get(3).unwrap_or(&"").to_string()).or_insert(0) += 1;
     }
     let info = col.info.lock().unwrap();
     let info_list: Vec<J> = info.iter().take(400).map(|(s, (n, ex))| json!({"class": s, "instances": n, "example": ex})).collect();
@@ -1054,7 +1217,7 @@ fn main() {
             "plain_display_cases_failed": sum(":fail", false),
             "distinct_oracle_outcomes": outcomes,
             "failing_signature_classes": fails.len(),
-            "failing_classes_by_octet_class_and_outcome": by_cause,
+            "failing_classes_by_octet_class_or_outcome": by_cause,
             "plain_display_nonconforming_classes(informational, not gated)": info.len(),
             "plain_display_examples": info_list,
             "phase_wall_s": {"fields": t_fields, "binary": t_binary - t_fields, "envelope": t_env - t_binary, "values": t_values - t_env},
